@@ -61,6 +61,38 @@ func ikInClosure(e *lang.Expr) bool {
 	return found
 }
 
+// nestedHostCall: ik is called inside a closure that is nested in another closure and
+// mentions a parameter of the outer one.
+func nestedHostCall(e *lang.Expr) bool {
+	found := false
+	var walk func(e *lang.Expr, params [][]string)
+	walk = func(e *lang.Expr, params [][]string) {
+		if e.K == lang.KLam || e.K == lang.KFunc {
+			if len(params) > 0 {
+				hasIK := false
+				e.X[0].Walk(func(x *lang.Expr) {
+					if x.K == lang.KSCall && x.S == "ik" {
+						hasIK = true
+					}
+				})
+				if hasIK && e.X[0].Mentions(params[len(params)-1]...) {
+					found = true
+				}
+			}
+			walk(e.X[0], append(params, e.Names))
+			for _, x := range e.X[1:] {
+				walk(x, params)
+			}
+			return
+		}
+		for _, x := range e.X {
+			walk(x, params)
+		}
+	}
+	walk(e, nil)
+	return found
+}
+
 func check(c progs.Case) result {
 	in := progs.NewRef()
 	rst := host.NewState()
@@ -155,6 +187,18 @@ func TestPropC02(t *testing.T) {
 		})
 		if hasImpure {
 			classes = append(classes, "has_ik_or_throw")
+		}
+		if g.Stats["closed_lam_applied"] > 0 {
+			classes = append(classes, "closure_without_captures_applied_to_constants")
+		}
+		if g.Stats["closed_nest"] > 0 {
+			classes = append(classes, "nested_closures_without_captures_from_the_program")
+		}
+		if g.Stats["host_call_in_closed_lam"] > 0 || g.Stats["closed_nest"] > 0 {
+			classes = append(classes, "host_call_inside_closure_without_captures")
+			if nestedHostCall(p.Body) {
+				classes = append(classes, "impure_call_in_nested_closure_that_captures")
+			}
 		}
 		nt := r.folded && (uses || hasImpure)
 		evid.R.Case(nt, c.Text+"|"+c.Summary()["args"].(string), func() any { return c.Summary() }, classes...)
